@@ -23,7 +23,8 @@ class Cov(np.ndarray):
             frame = values.frame
             values = np.asarray(values)
 
-        buf = np.array(values)
+        # Always floats: the buffer of an integer matrix can not be used as it is
+        buf = np.array(values, dtype=float)
 
         if buf.ndim != 2 or buf.shape[0] != buf.shape[1] or buf.shape[0] != 6:
             raise ValueError(
